@@ -14,32 +14,34 @@ vars == <<tool, lines, spell, act, phase>>
 
 Lit(s) == s         \* literal characters of a glob, one token each
 NoRx == [els |-> <<>>, astart |-> FALSE, aend |-> FALSE]
-G(text, glob, neg) == [text |-> text, glob |-> glob, neg |-> neg, rx |-> NoRx, blank |-> FALSE, isrx |-> FALSE]
-R(text, els, as, ae) == [text |-> text, glob |-> <<>>, neg |-> FALSE, rx |-> [els |-> els, astart |-> as, aend |-> ae], blank |-> FALSE, isrx |-> TRUE]
+G(cs, glob, neg) == [text |-> Str(cs), chars |-> cs, glob |-> glob, neg |-> neg, rx |-> NoRx, blank |-> FALSE, isrx |-> FALSE]
+R(text, els, as, ae) == [text |-> text, chars |-> <<>>, glob |-> <<>>, neg |-> FALSE, rx |-> [els |-> els, astart |-> as, aend |-> ae], blank |-> FALSE, isrx |-> TRUE]
 El(c) == [ch |-> c, q |-> "1"]
 Forms == [
-  lit     |-> G("b.log", <<"b", ".", "l", "o", "g">>, FALSE),
-  star    |-> G("*.log", <<"*", ".", "l", "o", "g">>, FALSE),
-  dir     |-> G("build", <<"b", "u", "i", "l", "d">>, FALSE),
-  dirstar |-> G("src/*.log", <<"s", "r", "c", "/", "*", ".", "l", "o", "g">>, FALSE),
-  deep    |-> G("**/o.log", <<"**", "/", "o", ".", "l", "o", "g">>, FALSE),
-  one     |-> G("?.log", <<"?", ".", "l", "o", "g">>, FALSE),
-  nested  |-> G("src/gen", <<"s", "r", "c", "/", "g", "e", "n">>, FALSE),
+  lit     |-> G(<<"b", ".", "l", "o", "g">>, <<"b", ".", "l", "o", "g">>, FALSE),
+  star    |-> G(<<"*", ".", "l", "o", "g">>, <<"*", ".", "l", "o", "g">>, FALSE),
+  dir     |-> G(<<"b", "u", "i", "l", "d">>, <<"b", "u", "i", "l", "d">>, FALSE),
+  dirstar |-> G(<<"s", "r", "c", "/", "*", ".", "l", "o", "g">>, <<"s", "r", "c", "/", "*", ".", "l", "o", "g">>, FALSE),
+  deep    |-> G(<<"*", "*", "/", "o", ".", "l", "o", "g">>, <<"**", "/", "o", ".", "l", "o", "g">>, FALSE),
+  one     |-> G(<<"?", ".", "l", "o", "g">>, <<"?", ".", "l", "o", "g">>, FALSE),
+  nested  |-> G(<<"s", "r", "c", "/", "g", "e", "n">>, <<"s", "r", "c", "/", "g", "e", "n">>, FALSE),
   \* a directory pattern written with a trailing slash (for hg and docker the slash changes nothing; git: directories only - git is the oracle)
-  dirslash |-> G("build/", <<"b", "u", "i", "l", "d">>, FALSE),
-  nestedslash |-> G("src/gen/", <<"s", "r", "c", "/", "g", "e", "n">>, FALSE),
+  dirslash |-> G(<<"b", "u", "i", "l", "d", "/">>, <<"b", "u", "i", "l", "d">>, FALSE),
+  nestedslash |-> G(<<"s", "r", "c", "/", "g", "e", "n", "/">>, <<"s", "r", "c", "/", "g", "e", "n">>, FALSE),
   \* a pattern that names the search root itself when the root is `src` (the ignore file sits in an ancestor of the root)
-  srcdir  |-> G("src", <<"s", "r", "c">>, FALSE),
+  srcdir  |-> G(<<"s", "r", "c">>, <<"s", "r", "c">>, FALSE),
   \* `?` where a kept path has its directory separator: it must not match
-  qslash  |-> G("src?y.rs", <<"s", "r", "c", "?", "y", ".", "r", "s">>, FALSE),
-  neg     |-> G("!keep.log", <<"k", "e", "e", "p", ".", "l", "o", "g">>, TRUE),
-  comment |-> [G("# *.rs", <<>>, FALSE) EXCEPT !.blank = TRUE],
-  blank   |-> [G("", <<>>, FALSE) EXCEPT !.blank = TRUE],
+  qslash  |-> G(<<"s", "r", "c", "?", "y", ".", "r", "s">>, <<"s", "r", "c", "?", "y", ".", "r", "s">>, FALSE),
+  neg     |-> G(<<"!", "k", "e", "e", "p", ".", "l", "o", "g">>, <<"k", "e", "e", "p", ".", "l", "o", "g">>, TRUE),
+  \* a negated literal name that itself contains an exclamation mark: only the leading one negates
+  negbang |-> G(<<"!", "k", "!", "p", ".", "l", "o", "g">>, <<"k", "!", "p", ".", "l", "o", "g">>, TRUE),
+  comment |-> [G(<<"#", " ", "*", ".", "r", "s">>, <<>>, FALSE) EXCEPT !.blank = TRUE],
+  blank   |-> [G(<<>>, <<>>, FALSE) EXCEPT !.blank = TRUE],
   rxend   |-> R("\\.log$", <<El("."), El("l"), El("o"), El("g")>>, FALSE, TRUE),
   rxstart |-> R("^build", <<El("b"), El("u"), El("i"), El("l"), El("d")>>, TRUE, FALSE),
   rxmid   |-> R("gen/o", <<El("g"), El("e"), El("n"), El("/"), El("o")>>, FALSE, FALSE) ]
 GlobForms == {"lit", "star", "dir", "dirstar", "deep", "one", "nested", "dirslash", "nestedslash", "srcdir", "qslash", "comment", "blank"}
-FormsOf(t) == CASE t = "git" -> GlobForms \cup {"neg"} [] t = "docker" -> GlobForms \cup {"neg"}
+FormsOf(t) == CASE t = "git" -> GlobForms \cup {"neg", "negbang"} [] t = "docker" -> GlobForms \cup {"neg", "negbang"}
                 [] t = "hgglob" -> GlobForms [] t = "hgrx" -> {"rxend", "rxstart", "rxmid", "comment", "blank"}
 
 Init == tool = "" /\ lines = <<>> /\ spell = "" /\ act = "" /\ phase = "start"
@@ -66,8 +68,8 @@ Dr(i, p, nm) == [id |-> i, parent |-> p, kind |-> "dir", name |-> nm, content |-
 W == [gitinit |-> (tool = "git"),
       nodes |-> << Fl(1, 0, "a.txt"), Fl(2, 0, "b.log"), Fl(3, 0, "keep.log"), Dr(4, 0, "src"), Fl(5, 4, "y.rs"), Fl(6, 4, "z.log"), Dr(7, 4, "gen"),
                    Fl(8, 7, "o.log"), Dr(9, 0, "build"), Fl(10, 9, "out.bin"), Fl(11, 0, "ab.logx"), Fl(12, 0, "o.log"), Fl(13, 4, "b.log"),
-                   [Fl(14, 0, FileName) EXCEPT !.content = Content] >>
-                \o (IF tool \in {"hgglob", "hgrx"} THEN << Dr(15, 0, ".hg") >> ELSE <<>>)]
+                   [Fl(14, 0, FileName) EXCEPT !.content = Content], Fl(15, 0, "k!p.log") >>
+                \o (IF tool \in {"hgglob", "hgrx"} THEN << Dr(16, 0, ".hg") >> ELSE <<>>)]
 
 OptWord == CASE tool = "git" -> "gitignore" [] tool = "docker" -> "dockerignore" [] OTHER -> "hgignore"
 RootText == CASE spell = "dot" -> "'.'" [] spell = "rel" -> "'r'" [] spell = "abs" -> "'@ROOT@'" [] spell = "sub" -> "'src'" [] spell = "subdot" -> "'.'"
